@@ -262,4 +262,124 @@ theorem C07_gen_pop (W : World V) (fs : OVal V) (C : MCls) (s : MState V) (k : S
                 dictDel_enc]
     · simp [encOut, encExc]
 
+/-- `popitem()` hands back the pair (key, value); on an empty schema it raises its own `KeyError` -/
+def encOutItem (fs : OVal V) (C : MCls) (key : Option String) (r : MState V × MRes V) : M V (OVal V × Outcome V) :=
+  match key, r.2 with
+  | some k, .ok (some v) => .ok (encSelf fs C r.1, .ret (.seq .tuple [.str k, .val v]))
+  | some k, .ok none => .ok (encSelf fs C r.1, .ret (.seq .tuple [.str k, .none]))
+  | none, .err .key => .ok (encSelf fs C r.1, .raise (.obj "KeyError" []))
+  | _, _ => encOut fs C r
+
+theorem lastKey_enc (m : MMap V) :
+    dictLastKey (encMap m) = match Utv.C07.Map.lastKey m with
+      | some k => .ok (.str k)
+      | none => .error (.raised (.obj "StopIteration" [])) := by
+  simp only [encMap, dictLastKey, encKvs, List.getLast?_map, Utv.C07.Map.lastKey]
+  cases m.getLast? <;> rfl
+
+theorem len_enc (m : MMap V) : len (encMap m) = .ok (.int m.length) := by
+  simp [encMap, len, encKvs, pure, Except.pure]
+
+/-- `Schema.popitem` is the model's `popitem`: the last key, through `pop` -/
+theorem C07_gen_popitem (W : World V) (fs : OVal V) (C : MCls) (s : MState V) (hw : WorldOk W C) :
+    Schema.popitem W (encSelf fs C s) = encOutItem fs C (Utv.C07.Map.lastKey s.data) (Utv.C07.popitem false C s) := by
+  gen_obligation "C07_gen_popitem: the regenerated code (Utv.Gen) is no longer equal to the hand model here" by
+    unfold Schema.popitem
+    simp only [gs_options, ga_immutable, truthy_bool, gs_items, len_enc, lastKey_enc, truthy, bind, Except.bind, pure,
+      Except.pure, Utv.C07.popitem]
+    cases hi : C.opts.immutable
+    · cases hk : Utv.C07.Map.lastKey s.data with
+      | none =>
+        have hl : s.data.length = 0 := by
+          simp only [Utv.C07.Map.lastKey, Option.map_eq_none_iff, List.getLast?_eq_none_iff] at hk
+          simp [hk]
+        simp [hl, encOutItem, encExc]
+      | some k =>
+        have hl : s.data.length ≠ 0 := by
+          intro h0
+          have : s.data = [] := List.length_eq_zero_iff.mp h0
+          simp [Utv.C07.Map.lastKey, this] at hk
+        have hl' : ((s.data.length : Int) != 0) = true := by simpa using hl
+        have hp := C07_gen_pop W fs C s k none hw
+        simp only [encDefault] at hp
+        simp only [hl', Bool.not_true, Bool.false_eq_true, if_false, hp]
+        generalize Utv.C07.pop false C s k none = r
+        obtain ⟨s', r⟩ := r
+        cases r with
+        | ok x => cases x <;> simp [encOut, encOutItem]
+        | err e => cases e <;> simp [encOut, encOutItem, encExc]
+    · cases Utv.C07.Map.lastKey s.data <;> simp [encOutItem, encOut, encExc]
+
+/-! ### `clear` -/
+
+/-- `parser.fields` -/
+def encFields (C : MCls) : OVal V := .dict (C.fields.map fun f => (.str f.attname, encField f))
+
+def encItem (f : MField) : OVal V := .seq .tuple [.str f.attname, encField f]
+
+theorem items_fields (C : MCls) : dictItems (encFields (V := V) C) = .ok (.seq .list (C.fields.map encItem)) := by
+  simp [encFields, dictItems, pure, Except.pure, encItem, Function.comp_def]
+
+theorem forIn_any {R : Type} (g : OVal V → Option R × PUnit → M V (ForInStep (Option R × PUnit)))
+    (bad : MField → Bool) (ret : R) :
+    ∀ xs : List MField,
+      (∀ x, g (encItem x) (none, ⟨⟩) = .ok (if bad x then .done (some ret, ⟨⟩) else .yield (none, ⟨⟩))) →
+      forIn (xs.map encItem) (none, PUnit.unit) g = .ok (if xs.any bad then (some ret, ⟨⟩) else (none, ⟨⟩)) := by
+  intro xs hg
+  induction xs with
+  | nil => rfl
+  | cons x xs ih =>
+    simp only [List.map_cons, List.forIn_cons, hg x, List.any_cons]
+    by_cases hx : bad x = true
+    · simp [hx, bind, Except.bind, pure, Except.pure]
+    · have hx' : bad x = false := by simpa using hx
+      simp only [hx', bind, Except.bind, Bool.false_eq_true, if_false, Bool.false_or]
+      exact ih
+
+theorem forIn_foldl {β : Type} (g : OVal V → OVal V → M V (ForInStep (OVal V))) (encS : β → OVal V)
+    (step : β → MField → β) :
+    ∀ (xs : List MField) (b : β),
+      (∀ x b, g (encItem x) (encS b) = .ok (.yield (encS (step b x)))) →
+      forIn (xs.map encItem) (encS b) g = .ok (encS (xs.foldl step b)) := by
+  intro xs
+  induction xs with
+  | nil => intro b _; rfl
+  | cons x xs ih =>
+    intro b hg
+    simp only [List.map_cons, List.forIn_cons, hg x b, bind, Except.bind, List.foldl_cons]
+    exact ih _ hg
+
+/-- `Schema.clear` is the model's `clear` -/
+theorem C07_gen_clear (W : World V) (C : MCls) (s : MState V) (hw : WorldOk W C) :
+    Schema.clear W (encSelf (encFields C) C s) = encOut (encFields C) C (Utv.C07.clear false C s) := by
+  gen_obligation "C07_gen_clear: the regenerated code (Utv.Gen) is no longer equal to the hand model here" by
+    unfold Schema.clear
+    simp only [gs_options, ga_immutable, truthy_bool, gs_parser, ga_fields, items_fields, iter, bind, Except.bind, pure,
+      Except.pure, Utv.C07.clear]
+    cases hi : C.opts.immutable
+    · simp only [Bool.false_eq_true, if_false]
+      have un : ∀ f : MField, unpack2 (encItem (V := V) f) = .ok (.str f.attname, encField f) := fun _ => rfl
+      rw [forIn_any _ (fun f => f.immutable || (f.required && !C.opts.ignoreRequired))
+        (encSelf (encFields C) C s, Outcome.raise (OVal.obj "DeleteError" []))]
+      · by_cases hb : (C.fields.any fun f => f.immutable || f.required && !C.opts.ignoreRequired) = true
+        · simp [hb, encOut, encExc]
+        · simp only [hb, if_false]
+          rw [forIn_foldl _ (fun a => encSelf (encFields C) C { data := s.data, attrs := a })
+            (fun a f => if Utv.C07.Map.has s.data f.name = true then Utv.C07.Map.del a f.attname else a) C.fields s.attrs]
+          · simp only [gs_items]
+            have hc : dictClear (encMap s.data) = .ok (encMap (V := V) []) := rfl
+            simp only [hc, ss_items]
+            rfl
+          · intro f a
+            simp only [un, gs_items, gs_attrs, ga_fname, ga_fattname, contains_enc, dictDel_enc]
+            cases hd : Utv.C07.Map.has s.data f.name
+            · simp
+            · cases ha : Utv.C07.Map.has a f.attname
+              · simp [del_absent _ _ ha]
+              · simp [ss_attrs]
+      · intro f
+        simp only [un, ga_fimmutable, truthy_bool, ga_fisreq, hw.isRequired]
+        cases f.immutable <;> cases (f.required && !C.opts.ignoreRequired) <;> rfl
+    · simp [encOut, encExc]
+
 end Utv.GenEq.C07
